@@ -1,0 +1,32 @@
+//go:build verif
+// +build verif
+
+package network
+
+import "time"
+
+// Read-only accessors and test knobs for the verification harness
+// (/verif/harness). Compiled only with the "verif" build tag.
+
+// VerifConnections returns, per peer id, the number of registered connections.
+func (r *Router) VerifConnections() map[ServerIdentityID]int {
+	r.Lock()
+	defer r.Unlock()
+	out := map[ServerIdentityID]int{}
+	for id, arr := range r.connections {
+		if len(arr) > 0 {
+			out[id] = len(arr)
+		}
+	}
+	return out
+}
+
+// VerifSetTimeout sets the global read/write timeout of TCP connections and
+// returns the previous value.
+func VerifSetTimeout(d time.Duration) time.Duration {
+	timeoutLock.Lock()
+	defer timeoutLock.Unlock()
+	old := timeout
+	timeout = d
+	return old
+}
